@@ -56,15 +56,21 @@ def _ghost(name, sort):
 
 
 def NAMESPACE(d):
-    """full namespace of a definition: its full name without the last component (DSDLFile.full_namespace)"""
+    """full namespace of a definition: its full name without the last component - the shared function of the full name
+    (specs/names.py) that C15 proves DSDLDefinition.full_namespace to compute"""
     if smt():
-        return _ghost("full_namespace", z3.StringSort())(d.ref)
+        from .names import NAMESPACE_OF
+
+        return NAMESPACE_OF(NAME(d))
     return d.full_namespace
 
 
 def ROOT_NS(d):
+    """root namespace: the first component of the full name (specs/names.py; proved for DSDLDefinition under C15)"""
     if smt():
-        return _ghost("root_namespace", z3.StringSort())(d.ref)
+        from .names import ROOT_NAMESPACE_OF
+
+        return ROOT_NAMESPACE_OF(NAME(d))
     return d.root_namespace
 
 
@@ -219,15 +225,17 @@ inline_ok(
 class _Iface:
     verify = False
     assumed = ("interface contract of an abstract property of DSDLFile: a pure function of the (immutable) definition "
-               "object; DSDLDefinition implements the path-derived ones by returning the fields set in __init__")
+               "object; full_name / version / paths are the fields set in __init__ (inlined accessors), full_namespace / "
+               "root_namespace / name_components are the shared functions of the full name of specs/names.py, which "
+               "DSDLDefinition's accessors are proved to compute under C15")
 
 
 def _components(d):
+    """the components of the full name (specs/names.py; proved for DSDLDefinition.name_components under C15)"""
     if smt():
-        e = speclib.CTX.engine
-        arr = e.uf("ghost!components!arr", RefSort, z3.ArraySort(z3.IntSort(), z3.StringSort()))(d.ref)
-        n = e.uf("ghost!components!len", RefSort, z3.IntSort())(d.ref)
-        return SymSeq(arr, n, Str)
+        from .names import NAME_PARTS
+
+        return NAME_PARTS(NAME(d))
     return d.name_components
 
 
@@ -253,6 +261,12 @@ class _IfVersion(_Iface):
 class _IfNamespace(_Iface):
     returns = Str
     value = staticmethod(lambda s: NAMESPACE(s.self))
+
+    def post(s):
+        # the defining property of the shared ghost: exactly the clause that C15 proves of DSDLDefinition.full_namespace
+        from .names import IS_NAMESPACE_OF
+
+        return {"components-are-all-but-the-last": IS_NAMESPACE_OF(s.result, NAME(s.self))}
 
 
 @contract(DSDLFILE + ".root_namespace", props=["C09", "C19"])
